@@ -263,14 +263,6 @@ sqfs_dir_iterator_t *dir_tree_iterator_create(const char *path,
 	if (ret)
 		goto fail_oom;
 
-	if (!(cfg->flags & DIR_SCAN_NO_HARDLINKS)) {
-		ret = sqfs_hard_link_filter_create(&dir, it->rec);
-		sqfs_drop(it->rec);
-		it->rec = dir;
-		if (ret)
-			goto fail_oom;
-	}
-
 	sqfs_object_init(it, destroy, NULL);
 	((sqfs_dir_iterator_t *)it)->next = next;
 	((sqfs_dir_iterator_t *)it)->read_link = read_link;
@@ -278,6 +270,23 @@ sqfs_dir_iterator_t *dir_tree_iterator_create(const char *path,
 	((sqfs_dir_iterator_t *)it)->ignore_subdir = ignore_subdir;
 	((sqfs_dir_iterator_t *)it)->open_file_ro = open_file_ro;
 	((sqfs_dir_iterator_t *)it)->read_xattr = read_xattr;
+
+	/*
+	  Hard links are detected among the entries that got through the
+	  type and name filters. An entry is what it is on disk, whichever
+	  of its names is looked at first.
+	 */
+	if (!(cfg->flags & DIR_SCAN_NO_HARDLINKS)) {
+		ret = sqfs_hard_link_filter_create(&dir,
+						   (sqfs_dir_iterator_t *)it);
+		sqfs_drop(it);
+		if (ret) {
+			fprintf(stderr, "%s: out of memory\n", path);
+			return NULL;
+		}
+
+		return dir;
+	}
 
 	return (sqfs_dir_iterator_t *)it;
 fail_oom:
